@@ -18,7 +18,7 @@ pub fn def() -> PropDef {
     PropDef {
         id: "C03",
         level: "exploration",
-        profiles: &["checked"],
+        profiles: &["checked", "fast"],
         abort_is_violation: false,
         rule: "forward: generated abstract values of every writer's domain (DIMACS cnf/wcnf/gcnf for i8..isize with \
                type-extreme literals, empty clauses, consistent / zero / (with ignore_header) arbitrary headers; \
